@@ -306,4 +306,9 @@ def trace_calls(
         yield
     finally:
         sys.setprofile(old_trace)
-        logger.flush()
+        try:
+            logger.flush()
+        except Exception:
+            # Like a failure while collecting a trace, a failing trace logger
+            # must not reach the traced program
+            logging.getLogger(__name__).exception("Failed flushing traces")
